@@ -1,5 +1,6 @@
 SPECIFICATION Spec
-CONSTANTS NP = 3 MaxRuns = 2 MaxTouch = 2
+CONSTANTS MaxRuns = 2 MaxTouch = 2
+  Scens <- ScenPlain3
   Settings <- SettingsQuick
   CreatedSetsChanged = TRUE
   KeepHistory = TRUE
